@@ -500,3 +500,30 @@ void bad_pck_sib__y1_only__ep2_pck(ep2_t r, const ep2_t p) {
 	fp2_zero(r->y);
 	fp_set_bit(r->y[0], 0, bn_cmp(y, h) == RLC_GT);
 }
+
+/* ------------------------------------------------------------------ DEC-UNPACK */
+void ok_dec_unpack__fp2_read_bin(fp2_t a, const uint8_t *bin, size_t len) {
+	if (len != RLC_FP_BYTES + 1) {
+		RLC_THROW(ERR_NO_BUFFER);
+		return;
+	}
+	fp_read_bin(a[0], bin, RLC_FP_BYTES);
+	fp_zero(a[1]);
+	fp_set_bit(a[1], 0, bin[RLC_FP_BYTES]);
+	if (!fp2_upk(a, a)) {
+		RLC_THROW(ERR_NO_VALID);
+		return;
+	}
+}
+
+/* whether the decompression found a square root is never looked at */
+void bad_dec_unpack__ignored__fp2_read_bin(fp2_t a, const uint8_t *bin, size_t len) {
+	if (len != RLC_FP_BYTES + 1) {
+		RLC_THROW(ERR_NO_BUFFER);
+		return;
+	}
+	fp_read_bin(a[0], bin, RLC_FP_BYTES);
+	fp_zero(a[1]);
+	fp_set_bit(a[1], 0, bin[RLC_FP_BYTES]);
+	fp2_upk(a, a);
+}
